@@ -198,6 +198,9 @@ class ProgramVerifier:
                 wobj = ex.obj(fr.env["writer"])
                 entry_data = wobj.fields["data"].t
                 entry_san = wobj.fields["_string_sanitization_mode"]
+                real_entry_san = entry_san
+                if X.resolve_type(self.spec, ins.type).kind in ("int", "enum", "bool"):
+                    entry_san = z3.BoolVal(False)      # integer elements do not depend on the mode
                 arr = fvals[ins.name].val
                 F = os_.fold_fn(ins, arr.t.sort())
                 A = os_.allvalid_fn(ins, arr.t.sort())
@@ -207,7 +210,7 @@ class ProgramVerifier:
                     i = fr2.env[var]
                     wo = ex2.obj(fr2.env["writer"])
                     return [("data", wo.fields["data"].t == z3.Concat(entry_data, F(arr.t, i, entry_san))),
-                            ("mode", wo.fields["_string_sanitization_mode"] == entry_san),
+                            ("mode", wo.fields["_string_sanitization_mode"] == real_entry_san),
                             ("valid-prefix", A(arr.t, i)),
                             ("bounds", z3.And(i >= 0, i <= z3.Length(arr.t)))]
 
